@@ -60,19 +60,14 @@ def compatible(tree_a, tree_b, shared):
     return True
 
 
-def merge(tree_a, tree_b, shared, mem_order=()):
-    """Fused tree: a common prefix holding both Einsums' nodes that sit above the (deepest) shared backing
-    node, in an order consistent with both trees, then a sequential split with the two remainders."""
-    ia, pa = prefix_info(tree_a, shared)
-    ib, pb = prefix_info(tree_b, shared)
-    pre_a, rest_a = tree_a[: pa + 1], tree_a[pa + 1:]
-    pre_b, rest_b = tree_b[: pb + 1], tree_b[pb + 1:]
-    # elements: loops identified by (rv, tile); storage nodes by (side, index)
+def merge_prefix(pre_a, pre_b, mem_order=()):
+    """Interleave two prefixes (node lists) that contain the same loops - identified by (rank variable, tile
+    shape) - into one sequence consistent with both: a storage node is a barrier in its own sequence, loops
+    between two barriers are unordered."""
     elems, before = [], {}
 
     def add_seq(seq, side):
-        barrier_prev = []      # everything that must precede the current run
-        cur_run = []
+        barrier_prev, cur_run = [], []
         for i, n in enumerate(seq):
             if n["t"] == "T":
                 k = ("L", n["rv"], n["tile"])
@@ -87,16 +82,14 @@ def merge(tree_a, tree_b, shared, mem_order=()):
                 before[k].update(cur_run)
                 barrier_prev = barrier_prev + cur_run + [k]
                 cur_run = []
-        return barrier_prev + cur_run
     add_seq(pre_a, "a")
     add_seq(pre_b, "b")
-    # topological order; among the available elements storage nodes go first, outer memories before inner
-    # ones (keeps the memory hierarchy order in the shared prefix), then loops
+
     def level(k):
         if k[0] == "L":
             return (1, 0)
         n = (pre_a if k[1] == "a" else pre_b)[k[2]]
-        return (0, mem_order.index(n["comp"]) if n["comp"] in mem_order else 99)
+        return (0, list(mem_order).index(n["comp"]) if n["comp"] in mem_order else 99)
     order, placed = [], set()
     while len(order) < len(elems):
         avail = [k for k in elems if k not in placed and all(p in placed for p in before.get(k, ()))]
@@ -105,8 +98,7 @@ def merge(tree_a, tree_b, shared, mem_order=()):
         k = min(avail, key=lambda x: (level(x), elems.index(x)))
         order.append(k)
         placed.add(k)
-    prefix = []
-    held = {}
+    prefix, held = [], {}
     for k in order:
         if k[0] == "L":
             prefix.append({"t": "T", "rv": k[1], "tile": k[2]})
@@ -118,5 +110,47 @@ def merge(tree_a, tree_b, shared, mem_order=()):
             if tensors:
                 nn = dict(n)
                 nn["tensors"] = tensors
+                nn["_from"] = (k[1], k[2])
                 prefix.append(nn)
-    return prefix + [{"t": "Q", "branches": [list(rest_a), list(rest_b)]}]
+    return prefix
+
+
+def _strip(nodes):
+    out = []
+    for n in nodes:
+        n = dict(n)
+        n.pop("_from", None)
+        if n["t"] == "Q":
+            n["branches"] = [_strip(b) for b in n["branches"]]
+        out.append(n)
+    return out
+
+
+def merge(tree_a, tree_b, shared, mem_order=()):
+    """Fused tree of two per-Einsum trees: merged prefix up to the deepest shared backing node, then a sequential split."""
+    _, pa = prefix_info(tree_a, shared)
+    _, pb = prefix_info(tree_b, shared)
+    prefix = merge_prefix(tree_a[: pa + 1], tree_b[: pb + 1], mem_order)
+    return _strip(prefix + [{"t": "Q", "branches": [list(tree_a[pa + 1:]), list(tree_b[pb + 1:])]}])
+
+
+def merge_chain3(tree_a, tree_b, tree_c, shared_ab, shared_bc, mem_order=()):
+    """Fused tree of a chain E0 -> E1 -> E2 (shared_ab between E0/E1, shared_bc between E1/E2)."""
+    _, pa = prefix_info(tree_a, shared_ab)
+    _, pb1 = prefix_info(tree_b, shared_ab)
+    _, pb2 = prefix_info(tree_b, shared_bc)
+    _, pc = prefix_info(tree_c, shared_bc)
+    if pb1 <= pb2:
+        bc = merge_prefix(tree_b[: pb2 + 1], tree_c[: pc + 1], mem_order)
+        # split the B/C prefix right after B's node that backs the E0/E1 tensor
+        cut = max(i for i, n in enumerate(bc) if n.get("_from") == ("a", pb1)) if any(n.get("_from") == ("a", pb1) for n in bc) else -1
+        part1, part2 = _strip(bc[: cut + 1]), _strip(bc[cut + 1:])
+        m1 = merge_prefix(tree_a[: pa + 1], part1, mem_order)
+        inner = part2 + [{"t": "Q", "branches": [list(tree_b[pb2 + 1:]), list(tree_c[pc + 1:])]}]
+        return _strip(m1 + [{"t": "Q", "branches": [list(tree_a[pa + 1:]), inner]}])
+    ab = merge_prefix(tree_a[: pa + 1], tree_b[: pb1 + 1], mem_order)
+    cut = max(i for i, n in enumerate(ab) if n.get("_from") == ("b", pb2)) if any(n.get("_from") == ("b", pb2) for n in ab) else -1
+    part1, part2 = _strip(ab[: cut + 1]), _strip(ab[cut + 1:])
+    m1 = merge_prefix(part1, tree_c[: pc + 1], mem_order)
+    inner = part2 + [{"t": "Q", "branches": [list(tree_a[pa + 1:]), list(tree_b[pb1 + 1:])]}]
+    return _strip(m1 + [{"t": "Q", "branches": [inner, list(tree_c[pc + 1:])]}])
